@@ -419,7 +419,26 @@ def run(model, col, tier):
             if "UpdateUses" in seq and "AcceptVisitor" in seq:
                 calls = sorted([(c.lineno, last_attr(c)) for c in ast.walk(m_) if isinstance(c, ast.Call) and last_attr(c) in ("AcceptVisitor", "UpdateUses")])
                 order_ok = [n for _, n in calls].index("AcceptVisitor") < [n for _, n in calls].index("UpdateUses")
-        col.check(refreshed and order_ok, "R02.8", f"{info['file']}::{v.name} refreshes the use lists",
+        # the table the rewrites consult is the *function's* (Function.UpdateUses rebuilds it from every block; a block's own
+        # UpdateUses does not touch it): the handler for Function refreshes it on the function it was given, on every path that
+        # traversed the function
+        hf = v.methods.get("v_Function")
+        whole = False
+        if hf is not None and len(hf.args.args) >= 2:
+            fpar = hf.args.args[1].arg
+            whole = True
+            for evs, status in paths(hf.body):
+                if status == "raise":
+                    continue
+                seq = []
+                for c in calls_on_path(evs):
+                    if last_attr(c) == "AcceptVisitor" and isinstance(c.func, ast.Attribute) and unparse(c.func.value) == fpar:
+                        seq.append("walk")
+                    elif last_attr(c) == "UpdateUses" and isinstance(c.func, ast.Attribute) and unparse(c.func.value) == fpar:
+                        seq.append("refresh")
+                if "walk" in seq and "refresh" not in seq[seq.index("walk"):]:
+                    whole = False
+        col.check(refreshed and order_ok and whole, "R02.8", f"{info['file']}::{v.name} refreshes the use lists",
                   f"handlers {swaps} swap instructions; UpdateUses() runs after the traversal",
                   f"handlers {swaps} replace instructions by new objects, but the use lists are not refreshed afterwards: a later ReplaceUses rewires the replaced objects "
                   "and leaves the instructions that are actually in the function untouched (dangling operand once the producer is removed)", info["file"], v.node)
